@@ -158,7 +158,16 @@ class FileUnderTest:
             out = getattr(self.r, method)(*args)
         except Exception as e:
             return ('err', exc_class(e)), list(self.f.log)
-        return ('val', np.asarray(out)), list(self.f.log)
+        res = np.asarray(out)
+        # what was handed out earlier must still hold what it held when it was returned: a later call of the library must not
+        # write into an array it has returned (the caller may still be using it, e.g. when reading a cube slab by slab)
+        held = self.__dict__.setdefault('_held', [])
+        for (m0, a0, arr0, cp0) in held:
+            if self.__dict__.get('alias') is None and not bits_equal(arr0, cp0):
+                self.alias = (m0, list(a0), method, list(args))
+        held.append((method, args, res, res.copy()))
+        del held[:-6]
+        return ('val', res), list(self.f.log)
 
     def model_call(self, method, args):
         m = self.model
